@@ -1,4 +1,19 @@
 import PqlModel.Props.C02
+import PqlModel.Props.C02Split
 #print axioms Pql.C02.C02_canAttachSort_table
 #print axioms Pql.C02.C02_top_eq_sort_take
 #print axioms Pql.C02.C02_spec_top
+#print axioms Pql.SplitQ.splitOps_run
+#print axioms Pql.SplitQ.splitQueries_run
+#print axioms Pql.SplitQ.splitOps_preserves
+#print axioms Pql.SplitQ.splitQueries_preserves
+#print axioms Pql.SplitQ.splitQueries_inv
+#print axioms Pql.C02.C02_sort_not_after_rename
+#print axioms Pql.C02.C02_limit_never_crosses
+#print axioms Pql.C02.C02_limit_never_crosses_nested
+#print axioms Pql.C02.C02_segment_forms
+#print axioms Pql.C02.C02_sort_chains
+#print axioms Pql.C02.C02_take_chains
+#print axioms Pql.C02.C02_sort_attaches
+#print axioms Pql.C02.C02_take_attaches
+#print axioms Pql.C02.C02_pipeline_order_semantics
